@@ -419,6 +419,11 @@ func countersStartAtZero(p *pw.Path) *pw.Event {
 
 // borrow runs rules of another property into a scratch report and transfers the selected obligations under a rule id of
 // the current property (used where one structural condition is a necessary condition of several properties).
+// isIncrement: a counter step — a local variable or a field (of a visitor/accumulator struct) is assigned itself plus something.
+func isIncrement(ev *pw.Event) bool {
+	return (ev.Kind == pw.EvAssign || ev.Kind == pw.EvFieldWrite) && ev.Value != nil && ev.Value.Kind == pw.KArith && ev.Value.Op == token.ADD
+}
+
 // reachBodies returns fd and the declarations of the unexported package functions/methods it calls, transitively up to depth.
 func (c *Ctx) reachBodies(fd *ast.FuncDecl, depth int) []*ast.FuncDecl {
 	info := c.Pkg.TypesInfo
